@@ -91,7 +91,8 @@ const NEUTRAL_EXPR: &str = "<math><mi>x</mi><mo>+</mo><mn>1</mn><mo>=</mo><mi>y<
 impl C14Checker {
     pub fn new(trace: &Trace, _session: usize) -> C14Checker {
         let pre_getter = (crate::rng::fnv_str(&trace.origin) % 3) as usize;
-        C14Checker { rounds: HashMap::new(), outstanding: vec![], last_fault: "none".into(), last_repair: "none".into(), ever_faulted: false, clean: HashMap::new(), srcs: HashMap::new(), tainted: false, pre_getter, set_under: None, pre: HashMap::new() }
+        let transient = trace.origin.starts_with("enumeration transient");
+        C14Checker { rounds: HashMap::new(), outstanding: vec![], last_fault: if transient { "transient-read-error in-call".into() } else { "none".into() }, last_repair: if transient { "retry".into() } else { "none".into() }, ever_faulted: false, clean: HashMap::new(), srcs: HashMap::new(), tainted: false, pre_getter, set_under: None, pre: HashMap::new() }
     }
 
     /// O2: the call that consumed faulted bytes of a MUST-ERR fault must fail and name the file
@@ -697,6 +698,64 @@ fn case_trace_inner(case: &Case) -> Trace {
     }
     t.sessions = vec![s];
     t
+}
+
+/// Transient read errors, enumerated: a fault-free cold start of `cfg` (set_rules_dir, CheckRuleFiles, the three
+/// configuration preferences, set_mathml, speech, braille, overview, one navigation command) is logged; then, for every
+/// call of that start-up and every read that call makes, one trace in which exactly that read fails ONCE (EIO; thorough
+/// also "not found" although the existence probe said yes). Nothing is broken on disk and nothing is repaired: the
+/// application retries (with CheckRuleFiles=All it just carries on; with the default Prefs it initialises again, the
+/// statement promises recovery "with file checking enabled, or after re-pointing the rules directory"). Oracles: no panic
+/// anywhere (O1, whatever CheckRuleFiles says), and the round after the retry equals a fresh session (O4).
+pub fn transient_traces(ctx: &Arc<ExecCtx>, cfg: &Config, all_kinds: bool) -> Result<Vec<Trace>, String> {
+    let e_full = pools::EXPR_NEEDS_FULL_UNICODE;
+    let mut v = Vec::new();
+    for check in ["All", "Prefs"] {
+        let mut head = vec![Step::Call(Op::SetRulesDir(MOUNT_A.into())), Step::Call(Op::SetPref("CheckRuleFiles".into(), check.into()))];
+        head.extend(cfg.set_steps());
+        for op in [Op::SetMathml(ExprRef::Pool(e_full)), Op::Speech, Op::Braille(IdRef::Empty), Op::Overview, Op::Cmd("ZoomIn".into())] {
+            head.push(Step::Call(op));
+        }
+        // reads per call of the fault-free start-up
+        let mut t = Trace::new("C14", "C14warmup");
+        t.sessions = vec![head.clone()];
+        let ctx2 = Arc::new(ExecCtx { base: ctx.base.clone(), zipped_base: ctx.zipped_base.clone(), keep_log: true });
+        let out = execute(&t, &ctx2);
+        if let Some(e) = out.harness_error {
+            return Err(e);
+        }
+        let mut reads: Vec<usize> = Vec::new();
+        for line in out.log.unwrap_or_default() {
+            if line.contains(" s0 call ") {
+                reads.push(0);
+            } else if line.contains(" seam Read ") && line.contains(" ok=true") {
+                if let Some(l) = reads.last_mut() {
+                    *l += 1;
+                }
+            }
+        }
+        if reads.len() != head.len() {
+            return Err(format!("transient enumeration: {} calls logged for {} steps", reads.len(), head.len()));
+        }
+        let kinds: &[InjectKind] = if all_kinds { &[InjectKind::ReadEio, InjectKind::ReadNotFound] } else { &[InjectKind::ReadEio] };
+        for (i, n) in reads.iter().enumerate() {
+            for nth in 1..=*n {
+                for kind in kinds {
+                    let mut t = Trace::new("C14", "C14");
+                    t.origin = format!("enumeration transient {:?} at read {} of call {} ({}) {}/{}/{} CheckRuleFiles={}", kind, nth, i, match &head[i] { Step::Call(op) => op.name(), _ => "" }, cfg.lang, cfg.style, cfg.code, check);
+                    let mut s = head.clone();
+                    s.push(clock(1000));
+                    s.push(ensure_step(MOUNT_A, cfg, check, check == "Prefs"));
+                    s.push(probe_step("after", e_full));
+                    s.push(expect_ref_step("after", MOUNT_A));
+                    t.injections.push(Injection { session: 0, step: i, sub: 0, nth, kind: kind.clone(), sticky: false });
+                    t.sessions = vec![s];
+                    v.push(t);
+                }
+            }
+        }
+    }
+    Ok(v)
 }
 
 /// Zipped deployment (Rules/Languages/xx/xx.zip, Rules/Braille/Code/Code.zip as written by build.rs): the archive of the
